@@ -10,7 +10,11 @@ from sa.util import (cfg_node_of, enclosing_loops, guards_at, in_finally, self_c
 from . import shared
 from .roles import VIEWS, roles
 
-FLAGS = {"SyncInterpreter": "_is_processing", "Interpreter": "_processing"}
+class _Flags(dict):
+    """re-entrancy flag per view, located on the current tree (rules/roles.py)"""
+
+
+FLAGS = _Flags()
 PRODUCER_OPS = {"call:append", "call:put", "call:put_nowait"}
 CONSUMER_OPS = {"call:popleft", "call:get", "call:get_nowait"}
 
@@ -27,6 +31,8 @@ def _flag_assigns(f, flag, value):
 
 def run(ctx):
     c, p, res = ctx.c, ctx.p, ctx.r
+    for v_ in VIEWS:
+        FLAGS[v_] = roles(ctx, v_).flag
     # ---- R1 flag pairing ------------------------------------------------------
     for v in VIEWS:
         r = roles(ctx, v)
@@ -54,7 +60,7 @@ def run(ctx):
     c.need(loops, "drain while-loop")
     for lp in loops[:1]:
         atoms = guards_at(dr, lp.test)
-        ok = any(isinstance(a, ast.Attribute) and a.attr == "_is_processing" and not pol for a, pol in atoms)
+        ok = any(isinstance(a, ast.Attribute) and a.attr == FLAGS["SyncInterpreter"] and not pol for a, pol in atoms)
         c.ob("R1", ok, dr, "reentrancy-test", "drain loop runs only when no drain is in progress" if ok else
              "the drain loop is not dominated by the 'already processing -> return' test: a send() from inside an "
              "action would start a nested macrostep", lp)
